@@ -406,7 +406,7 @@ def main(prop, tier, seed, jobs=None, update_baseline=False):
 
     lines = []
     real_viol = []
-    outdir = os.path.join(ROOT, "out", "replay")
+    outdir = os.path.join(os.environ.get("VERIF_OUT_DIR") or os.path.join(ROOT, "out"), "replay")
     for r, o in violations:
         name = o["name"]
         info = r.get("info", {})
@@ -439,7 +439,12 @@ def main(prop, tier, seed, jobs=None, update_baseline=False):
                 reported = True
                 break
         if not reported:
-            if name in base_ok or o["meta"].get("definite"):
+            imprecise = o["meta"].get("imprecise") or any((fl.get("meta") or {}).get("imprecise") for fl in new_fail)
+            if imprecise and not o["meta"].get("definite"):
+                # the path that refuted it went through a construct the encoding only over-approximates (an unmodelled
+                # format directive, repr(), ...): without a native witness the refutation may be the encoding's own
+                undecided.append((name, f"sat-on-an-over-approximated-path {imprecise}", last_path))
+            elif name in base_ok or o["meta"].get("definite"):
                 real_viol.append(name)
                 lines.append(f"VIOLATION property={prop} replay={last_path} obligation={name} no-failing-input-found")
             else:
@@ -479,8 +484,9 @@ def main(prop, tier, seed, jobs=None, update_baseline=False):
     }
     if hasattr(mod, "evidence_extra"):
         ev["coverage"].update(mod.evidence_extra(results))
-    os.makedirs(os.path.join(ROOT, "evidence"), exist_ok=True)
-    with open(os.path.join(ROOT, "evidence", f"{prop}.json"), "w") as f:
+    evdir = os.environ.get("VERIF_EVIDENCE_DIR") or os.path.join(ROOT, "evidence")   # override: runs against scratch trees
+    os.makedirs(evdir, exist_ok=True)
+    with open(os.path.join(evdir, f"{prop}.json"), "w") as f:
         json.dump(ev, f, indent=1, default=str)
 
     for l in lines:
